@@ -33,12 +33,6 @@ HARNESSES = [
       assumptions=['coin confirmation heights in [0, height of the evaluated block] (what ConnectBlock / the mempool pass)', 'MONO variants: block timestamps non-decreasing along the chain'],
       bounds='real chain of L existing blocks (heights 0..L-1, skip pointers built by BuildSkip) plus the evaluated block at height L; L=2: nin 1..2 with arbitrary 32-bit timestamps; '
              'L=3: nin=2 with non-decreasing 32-bit timestamps; version, flags, every nSequence full 32-bit symbolic; coin heights symbolic in 0..L (the real functions run once per coin-height combination)'),
-    H('seqlocks_long', 'seqlocks.cpp', 'h_seqlocks', link=LINK + ['chain.cpp'], tier='thorough', variants=[{'L': 12, 'NIN': 1, 'MONO': 1}],
-      functions=['CalculateSequenceLocks', 'EvaluateSequenceLocks (consensus/tx_verify.cpp)', 'CBlockIndex::GetMedianTimePast with a full 11-block window', 'CBlockIndex::GetAncestor over real skip pointers (chain.cpp)'],
-      stubs=[HASHSTUB, 'assertion_fail (util/check.cpp) replaced by a failing assertion'],
-      unwind=16, unwindset=','.join('%s.%d:13' % (ISORT, k) for k in (6, 7, 8, 9)), timeout=1500, objbits=10,
-      assumptions=['block timestamps non-decreasing along the chain'],
-      bounds='chain of 12 existing blocks (full 11-block MTP window, skip pointers used), one input, coin height symbolic in 0..12'),
     H('maturity', 'maturity.cpp', 'h_maturity', link=LINK, variants=[{'NIN': 1}, {'NIN': 2}], tvariants=[{'NIN': 1}, {'NIN': 2}, {'NIN': 3}], nofmt=True,
       functions=['Consensus::CheckTxInputs (consensus/tx_verify.cpp): coinbase maturity branch', 'Coin::IsCoinBase'],
       stubs=[HASHSTUB, 'CCoinsViewCache::HaveInputs/AccessCoin answered from a harness coin table (phantom view object)', 'FormatMoney -> empty string', 'tinyformat: strprintf returns empty strings (ref/nofmt/tinyformat.h)'],
